@@ -4,6 +4,11 @@ Prints one line per check: FIRED (exit 1 + VIOLATION line) / MISSED, with the VI
 import subprocess, sys
 patch, ids = sys.argv[1], sys.argv[2:]
 def sh(c): return subprocess.run(c, shell=True, stdout=subprocess.PIPE, stderr=subprocess.STDOUT).stdout.decode()
+import fcntl, os
+os.makedirs("/verif/build", exist_ok=True)
+_lk = open("/verif/build/.seedlock", "a")
+fcntl.flock(_lk, fcntl.LOCK_EX)          # wait for running checks / other seed trials
+os.environ["VERIF_TRYSEED"] = "1"
 st = sh("git -C /repo status --porcelain --untracked-files=no")
 assert st.strip() == "", "repo not clean: " + st
 r = subprocess.run(["git", "-C", "/repo", "apply", "--3way", patch])
